@@ -244,10 +244,20 @@ pub fn create_temp_db(
     dbs: &Arc<Databases>,
 ) -> Arc<Database> {
     let initial_db = HashMap::new();
+    // Not the number of databases: after a restart only the snapshotted databases are back and
+    // the count would hand out the id of one of them again
+    let next_id = dbs
+        .map
+        .read()
+        .expect("could not get lock")
+        .values()
+        .map(|db| db.metadata.id + 1)
+        .max()
+        .unwrap_or(0);
     return Arc::new(Database::create_db_from_hash(
         name,
         initial_db,
-        DatabaseMataData::new(dbs.map.read().expect("could not get lock").len(), strategy),
+        DatabaseMataData::new(next_id, strategy),
     ));
 }
 
